@@ -464,15 +464,17 @@ def ob_before_lock(run, oid):
 def witness(run, oid):
     """thorough tier: compile-fail doctests with compiling twins"""
     o = run.ob(oid, "type-level witnesses: constructing Validated* outside their modules / passing raw values to Pool does not compile (twins compile)",
-               "the type system is what carries the validate-then-use discipline across modules", floor=1)
-    wdir = os.path.join(os.path.dirname(os.path.dirname(os.path.abspath(__file__))), "witness")
-    if not os.path.isdir(wdir):
-        o.missing("witness crate")
-        return
+               "the type system is what carries the validate-then-use discipline across modules", floor=8)
     from engine import witness as W
     res = W.run_witness()
-    for name, ok, detail in res:
-        o.check(ok, "witness|" + name, "doctest %s behaves as expected" % name, "witness/src/lib.rs", {"detail": detail})
+    names = ["ValidatedVoteLiteralFails", "ValidatedVoteLiteralTwin", "ValidatedCertLiteralFails", "ValidatedCertLiteralTwin", "NewValidatedPrivateFails",
+             "AddVoteRawFails", "AddVoteRawTwin", "AddCertRawFails", "AddCertRawTwin", "CertStakeFieldPrivateFails"]
+    if len(res) == 1 and res[0][0].startswith("skipped"):
+        o.ok("witness|skipped", res[0][2], "", nontrivial=False)
+        o.floor = 1
+        return
+    for name, ok, detail in W.expect(names, res):
+        o.check(ok, "witness|" + name, "doctest %s behaves as expected (%s)" % (name, "must not compile" if name.endswith("Fails") else "compiles"), "witness/src/lib.rs", {"detail": detail})
 
 
 def check(run):
